@@ -1127,7 +1127,7 @@ func (ctx *RenderContext) EvaluateExpression(node Node) (interface{}, error) {
 			return 0, nil
 		case "-":
 			if num, ok := ctx.toNumber(operand); ok {
-				return -num, nil
+				return plusZero(-num), nil
 			}
 			return 0, nil
 		default:
@@ -1137,6 +1137,16 @@ func (ctx *RenderContext) EvaluateExpression(node Node) (interface{}, error) {
 	default:
 		return nil, fmt.Errorf("unsupported expression type: %T", node)
 	}
+}
+
+// plusZero turns the floating-point negative zero into zero. Template numbers are
+// exact integers as far as templates can tell: -2 * 0, 0 / -2 and -0 are 0, not
+// the "-0" that IEEE arithmetic produces and that would be printed.
+func plusZero(f float64) float64 {
+	if f == 0 {
+		return 0
+	}
+	return f
 }
 
 // attributeCacheKey is used as a key for the attribute cache
@@ -1513,7 +1523,7 @@ func (ctx *RenderContext) evaluateBinaryOp(operator string, left, right interfac
 	case "*":
 		if lNum, lok := ctx.toNumber(left); lok {
 			if rNum, rok := ctx.toNumber(right); rok {
-				return lNum * rNum, nil
+				return plusZero(lNum * rNum), nil
 			}
 		}
 
@@ -1523,7 +1533,7 @@ func (ctx *RenderContext) evaluateBinaryOp(operator string, left, right interfac
 				if rNum == 0 {
 					return nil, errors.New("division by zero")
 				}
-				return lNum / rNum, nil
+				return plusZero(lNum / rNum), nil
 			}
 		}
 
@@ -1534,7 +1544,7 @@ func (ctx *RenderContext) evaluateBinaryOp(operator string, left, right interfac
 				if rNum == 0 {
 					return nil, errors.New("modulo by zero")
 				}
-				return math.Mod(lNum, rNum), nil
+				return plusZero(math.Mod(lNum, rNum)), nil
 			}
 		}
 
